@@ -6,7 +6,7 @@ cd "$(dirname "$0")/.."
 fam() { case $1 in C01|C07) echo C01,C07;; C09|C10) echo C09,C10;; C12) echo C12;; C18) echo C18;; C19) echo C19;; C14) echo C14,C01;; C20) echo C20;; *) echo C02,C03,C04,C05,C06,C08,C11,C13,C15,C16,C17;; esac; }
 claimed=$(python3 -c "import json;print(' '.join(c['property_id'] for c in json.load(open('MANIFEST.json'))['checks']))")
 for id in "$@"; do
-  for m in m1 m2; do
+  for m in ${SEED_MUTS:-m1 m2 m3}; do
     [ -f /tmp/seed_$id/$m/patch.diff ] || continue
     ps=""; for p in $(fam $id | tr , ' '); do case " $claimed " in *" $p "*) ps="$ps,$p";; esac; done
     echo "== $id $m (${ps#,})"
